@@ -12,7 +12,7 @@ Objects (see Model/FormulaSpec.lean, Model/Formula.lean):
   every entry equals `denote f k`, and nothing else is present.
 Helper lemmas live in Proofs/Formula*.lean. All theorems are for unbounded nesting depth and length.
 -/
-import ChemModel.Proofs.FormulaReject3
+import ChemModel.Proofs.FormulaReject4
 
 namespace ChemModel.C01
 open ChemModel.Formula ChemModel.Gen
@@ -111,29 +111,51 @@ theorem reject_sign_in_stoichiometry (a : List Char) (x : Char) (hx : x ∈ a) (
 theorem accepted_language (s : List Char) (c : Comp) (h : parseStoich s = .ok c) : s = ['e'] ∨ Acc s :=
   parseStoich_sound s c h
 
-/- FULL STATEMENT (not yet proved at this level):
-   theorem reject_unbalanced (s : String) (h : balanced s.toList = false) : ∃ e, formulaToComposition s = .error e
-   Proved below for every hydrate part handed to the grammar (`parseStoich` is called on each part of the split
-   stoichiometry token; prefixes, suffixes and the charge token contain no brackets unless the charge number is not an
-   integer, which `reject`s as well). Missing: the bookkeeping that a bracket imbalance of the whole string shows up as an
-   imbalance of one part (string plumbing through stripPrefixes / stripSuffixes / splitAtChar / splitDD). -/
-/-- **Unbalanced brackets are rejected** by the grammar: for EVERY text whose brackets `( ) [ ] { }` are not balanced and
-    properly nested, the stoichiometry parser raises ParseException (never a silently mis-read composition). -/
-theorem reject_unbalanced_partial (s : List Char) (h : balanced s = false) : parseStoich s = .error .parse := by
+/-- **Unbalanced brackets are rejected.** For EVERY input string whose brackets `( ) [ ] { }` are not balanced and
+    properly nested (`balanced` = stack scan over the whole text, prefixes, charge and suffix included),
+    `formula_to_composition` raises instead of returning a composition. -/
+theorem reject_unbalanced (s : String) (h : balanced s.toList = false) : ∃ e, formulaToComposition s = .error e := by
+  cases hr : formulaToComposition s with
+  | error e => exact ⟨e, rfl⟩
+  | ok c =>
+    have := accepted_balanced s.toList c hr
+    rw [this] at h; exact absurd h (by decide)
+
+/-- **A capitalised token that is not an element symbol is rejected.** For EVERY input string in which some maximal token
+    `[A-Z][a-z]*` (`capTokensOK` = scan over the whole text) is not one of the 118 symbols (`Xx`, `Ab`, `Hx`, `Cos`, …),
+    `formula_to_composition` raises instead of silently mis-reading it. -/
+theorem reject_bad_capitalised_token (s : String) (h : capTokensOK s.toList = false) :
+    ∃ e, formulaToComposition s = .error e := by
+  cases hr : formulaToComposition s with
+  | error e => exact ⟨e, rfl⟩
+  | ok c =>
+    have := accepted_capTokensOK s.toList c hr
+    rw [this] at h; exact absurd h (by decide)
+
+/-- The same two facts at the level of the grammar (every text handed to `parseStoich`), with the precise error. -/
+theorem reject_unbalanced_part (s : List Char) (h : balanced s = false) : parseStoich s = .error .parse := by
   apply parseStoich_reject s
   · intro e; subst e; revert h; decide
   · intro hacc; rw [hacc.balanced_true] at h; exact absurd h (by decide)
 
-/- FULL STATEMENT (not yet proved at this level):
-   theorem reject_bad_capitalised_token (s : String) (h : capTokensOK s.toList = false) : ∃ e, formulaToComposition s = .error e
-   Proved below for every hydrate part handed to the grammar; the same string plumbing as above is missing
-   (a capitalised token never spans a cut point of the outer layers, because every cut is next to a non-letter). -/
-/-- **A capitalised token that is not an element symbol is rejected** by the grammar: for EVERY text in which some maximal
-    token `[A-Z][a-z]*` is not one of the 118 symbols (`Xx`, `Ab`, `Hx`, `Cos`, …), the stoichiometry parser raises. -/
-theorem reject_bad_capitalised_token_partial (s : List Char) (h : capTokensOK s = false) : parseStoich s = .error .parse := by
+theorem reject_bad_capitalised_token_part (s : List Char) (h : capTokensOK s = false) : parseStoich s = .error .parse := by
   apply parseStoich_reject s
   · intro e; subst e; revert h; decide
   · intro hacc; rw [hacc.capTokensOK_true] at h; exact absurd h (by decide)
+
+/-- Error propagation: if the grammar rejects any one of the hydrate parts of the input (after the code's own peeling of
+    prefixes, suffixes, charge token and leading integers), the whole parse is an error — a bad part is never skipped. -/
+theorem reject_rejected_part (s : String) (p : List Char) (hp : p ∈ hydrateParts s.toList)
+    (hrej : ∀ c, parseStoich p ≠ .ok c) : ∃ e, formulaToComposition s = .error e :=
+  part_rejected s.toList p hp hrej
+
+/-- Every accepted input has the shape  prefixes ++ parts joined by the separator ++ charge token ++ suffixes. -/
+theorem accepted_input_shape (s : String) (c : Comp) (h : formulaToComposition s = .ok c) :
+    ∃ (dp T : List (List Char)) (a chg : List Char),
+      s.toList = dp.flatten ++ ((a ++ chg) ++ T.flatten) ∧ (∀ p ∈ dp, p ∈ prefixesL) ∧ (∀ t ∈ T, t ∈ suffixesL) ∧
+      (∀ q ∈ (splitStoich a).1 :: (splitStoich a).2, PieceOK q) ∧
+      (∀ x ∈ chg, x = '+' ∨ x = '-' ∨ x.isDigit = true) :=
+  accepted_shape s.toList c h
 
 example : formulaToComposition "Fe+3-" = .error .charge := by decide +kernel
 example : formulaToComposition "Fe+-" = .error .charge := by decide +kernel
@@ -143,6 +165,8 @@ example : capTokensOK "NaXx2".toList = false ∧ capTokensOK "Hx".toList = false
 example : formulaToComposition "Hx" = .error .parse := by decide +kernel
 example : balanced "[Fe(H2O]6)".toList = false ∧ balanced "(H2O".toList = false ∧ balanced "[Fe(H2O)6]".toList = true := by decide +kernel
 example : formulaToComposition "[Fe(H2O)6+3" = .error .parse := by decide +kernel
+example : balanced "alpha-[Fe(H2O)6+3(aq)".toList = false ∧ capTokensOK "alpha-NaXx..7H2O+(aq)".toList = false := by decide +kernel
+example : hydrateParts "Na2CO3..7Hx2O-(aq)".toList = ["Na2CO3".toList, "Hx2O".toList] := by decide +kernel
 example : formulaToComposition "Fe/3+" = .error .slash := by decide +kernel
 
 /-! ### non-vacuity: the well-known formulas are renderings of well-formed ASTs and parse -/
